@@ -30,7 +30,8 @@ from collections import Counter
 from concurrent.futures import ThreadPoolExecutor
 
 ROOT = os.path.dirname(os.path.dirname(os.path.abspath(__file__)))
-EVID = os.path.join(ROOT, "evidence")
+REPO = os.environ.get("VERIF_REPO", "/repo")       # selftest points this at a mutated scratch copy
+EVID = os.environ.get("VERIF_EVID", os.path.join(ROOT, "evidence"))
 REPLAY = os.path.join(EVID, "replay")
 KNOWN = os.path.join(ROOT, "known_findings.json")
 NCPU = min(16, os.cpu_count() or 4)
@@ -170,7 +171,7 @@ def _run_one(prop, tier, seed, idx, params, pfile, scratch, timeout, only=None):
   os.makedirs(odir, exist_ok=True)
   ofile = os.path.join(odir, "result.json")
   env = dict(os.environ)
-  env["PYTHONPATH"] = ROOT + os.pathsep + env.get("PYTHONPATH", "")
+  env["PYTHONPATH"] = REPO + os.pathsep + ROOT + os.pathsep + env.get("PYTHONPATH", "")
   env["PYTHONHASHSEED"] = str(params.get("hashseed", 0) if isinstance(params, dict) else 0)
   env["PYTHONDONTWRITEBYTECODE"] = "1"
   env["VERIF_SCRATCH"] = odir
